@@ -466,3 +466,234 @@ class BlockEval(PureEval):
         if isinstance(node, ast.JoinedStr):
             return "<text>"
         return super().ev(node, env)
+
+
+class _Ret(Exception):
+    def __init__(self, value):
+        self.value = value
+
+
+class _Brk(Exception):
+    pass
+
+
+class _Cnt(Exception):
+    pass
+
+
+class Obj(dict):
+    """An instance in ObjEval: attribute name -> value."""
+
+
+class ObjEval(BlockEval):
+    """Evaluation of the methods of one small bookkeeping class (a table with a few dict / set attributes) on an explicitly enumerated,
+    finite set of witness call sequences: attribute and subscript stores on the instance, calls between its methods, generators (the
+    yielded values are returned as a tuple), bounded loops.  Anything outside that fragment raises FevalError."""
+
+    MAX_ITER = 64
+    MAX_STEPS = 20000
+
+    def __init__(self, resolve, extra=None, methods=None):
+        super().__init__(resolve, extra)
+        self.methods = methods or {}
+        self._yields = []
+        self.steps = 0
+
+    def call_method(self, fn_node, *args, **kwargs):
+        a = fn_node.args
+        names = [x.arg for x in a.posonlyargs + a.args]
+        env = dict(zip(names, args))
+        defaults = dict(zip(names[len(names) - len(a.defaults):], a.defaults))
+        for k, v in kwargs.items():
+            env[k] = v
+        for k, d in defaults.items():
+            if k not in env:
+                env[k] = self.ev(d, {})
+        if len(env) != len(names):
+            raise FevalError("arity")
+        own = [n for n in ast.walk(fn_node) if isinstance(n, (ast.Yield, ast.YieldFrom))]
+        self.depth += 1
+        if self.depth > 20:
+            raise FevalError("recursion too deep")
+        if own:
+            self._yields.append([])
+        try:
+            try:
+                self.exec(fn_node.body, env)
+                r = None
+            except _Ret as ret:
+                r = ret.value
+            if own:
+                return tuple(self._yields[-1])
+            return r
+        finally:
+            self.depth -= 1
+            if own:
+                self._yields.pop()
+
+    def _store(self, target, value, env):
+        if isinstance(target, ast.Name):
+            env[target.id] = value
+        elif isinstance(target, (ast.Tuple, ast.List)):
+            vals = list(value)
+            if len(vals) != len(target.elts):
+                raise FevalError("unpacking mismatch")
+            for t, v in zip(target.elts, vals):
+                self._store(t, v, env)
+        elif isinstance(target, ast.Attribute):
+            base = self.ev(target.value, env)
+            if not isinstance(base, Obj):
+                raise FevalError("attribute store on a non-instance")
+            base[target.attr] = value
+        elif isinstance(target, ast.Subscript):
+            base = self.ev(target.value, env)
+            if not isinstance(base, (dict, list)) or isinstance(base, Obj):
+                raise FevalError("subscript store on an unsupported object")
+            base[self.ev(target.slice, env)] = value
+        else:
+            raise FevalError("store target")
+
+    def exec(self, stmts, env):
+        for st in stmts:
+            self.steps += 1
+            if self.steps > self.MAX_STEPS:
+                raise FevalError("too many steps")
+            if isinstance(st, ast.Expr) and isinstance(st.value, ast.Constant):
+                continue
+            if isinstance(st, ast.Pass):
+                continue
+            if isinstance(st, ast.Return):
+                raise _Ret(self.ev(st.value, env) if st.value is not None else None)
+            if isinstance(st, ast.Assert):
+                if not self.ev(st.test, env):
+                    raise BlockOutcome("assert", st)
+                continue
+            if isinstance(st, ast.Raise):
+                raise BlockOutcome("raise", st)
+            if isinstance(st, ast.If):
+                self.exec(st.body if self.ev(st.test, env) else st.orelse, env)
+                continue
+            if isinstance(st, ast.Assign):
+                v = self.ev(st.value, env)
+                for t in st.targets:
+                    self._store(t, v, env)
+                continue
+            if isinstance(st, ast.AnnAssign):
+                if st.value is not None:
+                    self._store(st.target, self.ev(st.value, env), env)
+                continue
+            if isinstance(st, ast.AugAssign):
+                cur = self.ev(_as_load(st.target), env)
+                self._store(st.target, _BIN[type(st.op)](cur, self.ev(st.value, env)), env)
+                continue
+            if isinstance(st, ast.Expr):
+                self.ev(st.value, env)
+                continue
+            if isinstance(st, ast.Delete):
+                for t in st.targets:
+                    if isinstance(t, ast.Name):
+                        env.pop(t.id, None)
+                    elif isinstance(t, ast.Subscript):
+                        del self.ev(t.value, env)[self.ev(t.slice, env)]
+                    else:
+                        raise FevalError("del target")
+                continue
+            if isinstance(st, ast.For):
+                seq = list(self.ev(st.iter, env))
+                if len(seq) > self.MAX_ITER:
+                    raise FevalError("loop too long")
+                broke = False
+                for x in seq:
+                    self._store(st.target, x, env)
+                    try:
+                        self.exec(st.body, env)
+                    except _Brk:
+                        broke = True
+                        break
+                    except _Cnt:
+                        continue
+                if not broke:
+                    self.exec(st.orelse, env)
+                continue
+            if isinstance(st, ast.While):
+                n = 0
+                broke = False
+                while self.ev(st.test, env):
+                    n += 1
+                    if n > self.MAX_ITER:
+                        raise FevalError("loop too long")
+                    try:
+                        self.exec(st.body, env)
+                    except _Brk:
+                        broke = True
+                        break
+                    except _Cnt:
+                        continue
+                if not broke:
+                    self.exec(st.orelse, env)
+                continue
+            if isinstance(st, ast.Break):
+                raise _Brk()
+            if isinstance(st, ast.Continue):
+                raise _Cnt()
+            raise FevalError(f"statement {type(st).__name__}")
+
+    def ev(self, node, env):
+        if isinstance(node, ast.Yield):
+            if not self._yields:
+                raise FevalError("yield outside a generator")
+            self._yields[-1].append(self.ev(node.value, env) if node.value is not None else None)
+            return None
+        if isinstance(node, ast.YieldFrom):
+            self._yields[-1].extend(self.ev(node.value, env))
+            return None
+        if isinstance(node, ast.NamedExpr):
+            v = self.ev(node.value, env)
+            env[node.target.id] = v
+            return v
+        if isinstance(node, ast.Dict):
+            return {self.ev(k, env): self.ev(v, env) for k, v in zip(node.keys, node.values)}
+        if isinstance(node, ast.List):
+            return [self.ev(e, env) for e in node.elts]
+        if isinstance(node, ast.DictComp):
+            out = {}
+
+            def rec(gi, e):
+                if gi == len(node.generators):
+                    out[self.ev(node.key, e)] = self.ev(node.value, e)
+                    return
+                g = node.generators[gi]
+                for x in list(self.ev(g.iter, e)):
+                    e2 = dict(e)
+                    self._bind(g.target, x, e2)
+                    if all(self.ev(c, e2) for c in g.ifs):
+                        rec(gi + 1, e2)
+            rec(0, dict(env))
+            return out
+        if isinstance(node, ast.Call) and isinstance(node.func, ast.Attribute):
+            base = self.ev(node.func.value, env)
+            m = node.func.attr
+            args = [self.ev(a, env) for a in node.args]
+            kwargs = {k.arg: self.ev(k.value, env) for k in node.keywords if k.arg}
+            if isinstance(base, Obj):
+                if m in self.methods:
+                    return self.call_method(self.methods[m], base, *args, **kwargs)
+                if m in base and callable(base[m]):
+                    return base[m](*args, **kwargs)
+                raise FevalError(f"method {m}")
+            if isinstance(base, (dict, list, set, tuple, frozenset, str)) and m in (
+                    "get", "setdefault", "append", "add", "pop", "update", "extend", "items", "keys", "values", "count", "index", "discard", "remove",
+                    "insert", "copy", "union", "intersection", "difference", "isdisjoint", "issubset", "issuperset", "most_common", "clear"):
+                r = getattr(base, m)(*args, **kwargs)
+                return tuple(r) if m in ("items", "keys", "values") else r
+            raise FevalError(f"call of .{m} on {type(base).__name__}")
+        return super().ev(node, env)
+
+
+def _as_load(t):
+    import copy
+    t2 = copy.deepcopy(t)
+    for n in ast.walk(t2):
+        if hasattr(n, "ctx"):
+            n.ctx = ast.Load()
+    return t2
